@@ -4,3 +4,8 @@ claim("C18",
       text="Step-count rule, schedule (every column written exactly once with the state after j*k steps), key addressing and reset are proved in Lean for all n, k, step/observe functions; the model is tied to the code by exact comparison of step counts (rational value of the double T/dt) and write schedules; recorded values, untouched caller state, run/reset/run and exact evolution are decided per run by an independently stepped twin and dense algebra for all seven concrete classes.",
       note="Trusted: Lean kernel, axioms {propext, Classical.choice, Quot.sound}; hand-written model lean/Ptn/C18/Model.lean; harness; math.modf/float division exactness; Python object aliasing is decided by the oracle only (partial).",
       ref="DESIGN.md section 5 C18")
+claim("C05",
+      technique="Lean 4 theorems on the executable schedule model of the three TDVP sweeps (signed-duration totals per node/edge, palindromic order) + exact trace correspondence through the guarded time_evolve observer + dense E^H H E oracle at every call",
+      text="For all segment lists (update path + next hops) the per-node, per-edge and total signed durations of the first-order, second-order one-site and two-site schedules are proved in Lean; the model's event sequence is compared exactly with the calls observed through the PYTREENET_VERIF hook; at every observed call the effective Hamiltonian is compared with E^H H E built densely from all other current tensors (so stale cache blocks, wrong leg permutations and wrong child-order handling are failing inputs).",
+      note="Trusted: Lean kernel + standard axioms; model lean/Ptn/C05/Model.lean; harness dense embedding; that segment edges enumerate the tree edges is C17 (re-checked per run by the totals oracle); time_evolve itself is C20.",
+      ref="DESIGN.md section 5 C05")
